@@ -118,7 +118,22 @@ impl Shared {
                     self.commit_end = Some(len);
                 }
             }
-            "seg.append.synced" | "rewrite.synced" => {
+            "seg.append.synced" => {
+                let len = file_len(&self.seg);
+                self.synced_len = len;
+                self.last_commit_end = len;
+                self.tail_has_full_frame = false;
+            }
+            // Protocol-agnostic recovery rewrite: an in-place rewrite syncs the segment itself
+            // ("rewrite.synced" with no replacement file beside it); an atomic rewrite syncs a replacement
+            // and publishes it with "rewrite.renamed". Either way the segment is then clean and durable.
+            "rewrite.synced" if !self.seg.with_file_name(".segment-rewrite.tmp").exists() => {
+                let len = file_len(&self.seg);
+                self.synced_len = len;
+                self.last_commit_end = len;
+                self.tail_has_full_frame = false;
+            }
+            "rewrite.renamed" => {
                 let len = file_len(&self.seg);
                 self.synced_len = len;
                 self.last_commit_end = len;
